@@ -358,6 +358,45 @@ func runC03(r *core.Run) {
 			return core.Outcome{Class: fmt.Sprint("tag=", inTag), Nontrivial: l >= 2, Evals: 4}
 		})
 
+	r.Bound("marked-offsets", markBounds+"; fields Qname / Seq / Qual / a Z tag, bytes '@', ':'"+core.Pick(r, "", " and '*', '=', ' ', 0x00, 0xFF")+"; '@' never first in Qname (that is a header line)")
+	core.Clause(r, "marked-offsets", core.Opts{Rule: "a format-vocabulary byte at EVERY offset of a long Qname, Seq, Qual or Z tag (it meets every internal buffer boundary of the reader); written, read back as the middle alignment line of three; non-trivial = all"},
+		genMarks([]string{"qname", "seq", "qual", "ztag"}, core.Pick(r, []int{'@', ':'}, []int{'@', '*', '=', ':', ' ', 0x00, 0xFF}), func(f string, b, off int) bool { return f == "qname" && b == '@' && off == 0 }),
+		func(c markCase) core.Outcome {
+			mid := defaultSamRec()
+			mid.Qname = "long"
+			switch c.Field {
+			case "qname":
+				mid.Qname = core.S(markedField(c, 'q'))
+			case "seq":
+				mid.Seq, mid.Qual = core.S(markedField(c, 'A')), core.S(bytes.Repeat([]byte{'I'}, c.Len))
+			case "qual":
+				mid.Seq, mid.Qual = core.S(bytes.Repeat([]byte{'A'}, c.Len)), core.S(markedField(c, 'I'))
+			case "ztag":
+				mid.Tags = []samTag{{Name: "XZ", Type: "Z", Z: core.S(markedField(c, 'z'))}, {Name: "NM", Type: "i", I: 7}}
+			}
+			first, last := defaultSamRec(), defaultSamRec()
+			first.Qname, last.Qname = "first", "last"
+			var file bytes.Buffer
+			file.WriteString("@HD\tVN:1.6\n")
+			var want []obsItem
+			for _, rc := range []samRec{first, mid, last} {
+				d, fail := writeSAMChecked(rc.build())
+				if fail != "" {
+					return core.Failf("%s", fail)
+				}
+				file.Write(d)
+				want = append(want, obsItem{Rec: renderSAM(rc.build())})
+			}
+			got, p := readSAMAll(file.Bytes())
+			if p != "" {
+				return core.Failf("Reader panicked/hung: %s of %d bytes with %q at offset %d: %s", c.Field, c.Len, byte(c.Byte), c.Offset, p)
+			}
+			if !sameShape(got, want) {
+				return core.Failf("%s of %d bytes with %q at offset %d reads back as %s", c.Field, c.Len, byte(c.Byte), c.Offset, trunc(renderObs(got), 300))
+			}
+			return core.Outcome{Class: c.Field, Nontrivial: true, Evals: 4}
+		})
+
 	// tags
 	var full []samTag
 	for b := 0x21; b <= 0x7e; b++ {
